@@ -52,6 +52,8 @@ pub enum DRec {
     Arcs { len: u32, vals: Vec<u64> },
     Other,
     Short,
+    /// record shorter than its content
+    RecordLen,
 }
 
 #[derive(Clone, Debug, PartialEq)]
@@ -123,6 +125,7 @@ pub fn gcda_text(d: &Gcda) -> String {
             }
             DRec::Other => s.push_str(";o"),
             DRec::Short => s.push_str(";s"),
+            DRec::RecordLen => s.push_str(";r"),
         }
     }
     s
@@ -346,7 +349,7 @@ pub fn encode_gcda(d: &Gcda, rng: &mut Rng) -> Vec<u8> {
                     w.u32(1);
                 }
             }
-            DRec::Short => {
+            DRec::Short | DRec::RecordLen => {
                 return w.0;
             }
         }
@@ -378,7 +381,7 @@ impl<'a> R<'a> {
         let hi = self.u32()? as u64;
         Some(hi << 32 | lo)
     }
-    /// None = buffer too short; Some(None) = a string without any non-NUL byte (the reader panics)
+    /// None = buffer too short; a string without any non-NUL byte is empty
     fn string(&mut self) -> Option<Option<Vec<u8>>> {
         let n = self.u32()? as usize;
         if n == 0 {
@@ -392,9 +395,6 @@ impl<'a> R<'a> {
         let mut s = self.b[start..self.pos].to_vec();
         while s.last() == Some(&0) {
             s.pop();
-        }
-        if s.is_empty() {
-            return Some(None);
         }
         Some(Some(s))
     }
@@ -413,7 +413,7 @@ pub fn parse_version(b: &[u8]) -> Option<u32> {
     if b.len() < 8 || b[4] != b'*' {
         return None;
     }
-    let d = |c: u8| (c as u32).wrapping_sub(b'0' as u32);
+    let d = |c: u8| c.wrapping_sub(b'0') as u32; // u8 wrapping, like get_version
     if b[7] >= b'A' {
         Some(100 * (b[7] - b'A') as u32 + 10 * d(b[6]) + d(b[5]))
     } else {
@@ -497,10 +497,7 @@ pub fn decode_gcno(b: &[u8]) -> Option<Notes> {
             if !have_fn {
                 continue;
             }
-            if length == 0 {
-                return None; // `count - 1` underflows: byte-level matter
-            }
-            let cnt = (length - 1) / 2;
+            let cnt = length.saturating_sub(1) / 2;
             let src = rd!(r.u32());
             let mut arcs = Vec::new();
             for _ in 0..cnt {
@@ -617,7 +614,8 @@ pub fn decode_gcda(b: &[u8]) -> Option<Gcda> {
             recs.push(DRec::Other);
         }
         if end < r.pos {
-            return None; // `pos - reader.get_pos()` underflows: byte-level matter
+            recs.push(DRec::RecordLen);
+            return Some(Gcda { version, checksum, recs });
         }
         let n = end - r.pos;
         rd!(r.skip(n));
@@ -643,8 +641,14 @@ pub fn err_kind(msg: &str) -> &'static str {
         "edgeCount"
     } else if msg.starts_with("Not enough data in buffer") {
         "short"
-    } else if msg.starts_with("Unexpected block number") {
+    } else if msg.starts_with("Unexpected block number") || msg.starts_with("Unexpected destination block number") {
         "blockNo"
+    } else if msg.starts_with("Record shorter than its content") {
+        "recordLen"
+    } else if msg.contains("memory allocation") || msg.contains("capacity overflow") {
+        // `try_reserve` for an arcs record whose length is far beyond the file: had the
+        // reservation succeeded the reads would have run out of data
+        "short"
     } else if msg.starts_with("Unexpected version") {
         "version"
     } else if msg.starts_with("Unexpected file type") {
@@ -662,14 +666,40 @@ pub fn run_compute(gcno: &[u8], gcdas: &[Vec<u8>], branch: bool) -> Result<Resul
     let ds = gcdas.to_vec();
     match guarded(move || Gcno::compute("stem", g, ds, branch)) {
         Ok(Ok(r)) => Ok(r),
-        Ok(Err(e)) => Err(format!("err {}", err_kind(&e.to_string()))),
+        Ok(Err(e)) => {
+            let k = err_kind(&e.to_string());
+            if k == "other" {
+                Err(format!("err other:{}", e.to_string().replace(' ', "_")))
+            } else {
+                Err(format!("err {}", k))
+            }
+        }
         Err(p) => Err(format!("panic {}", p)),
     }
 }
 
+/// hex, with "-" for the empty string (a token of the line protocol must not be empty)
+pub fn hex_tok(b: &[u8]) -> String {
+    if b.is_empty() {
+        "-".to_string()
+    } else {
+        hex(b)
+    }
+}
+
+/// results sorted by the bytes of the file name (the model's order)
+pub fn show_results_b(rs: &Results) -> String {
+    let mut v: Vec<(&[u8], String)> = rs
+        .iter()
+        .map(|(k, c)| (k.as_bytes(), format!("K{}={}", hex(k.as_bytes()), show_cov(c))))
+        .collect();
+    v.sort_by(|a, b| a.0.cmp(b.0));
+    v.into_iter().map(|x| x.1).collect::<Vec<_>>().join(" ")
+}
+
 pub fn show_compute(r: &Result<Results, String>) -> String {
     match r {
-        Ok(rs) => format!("ok {}", show_results(rs)).trim_end().to_string(),
+        Ok(rs) => format!("ok {}", show_results_b(rs)).trim_end().to_string(),
         Err(e) => {
             if e.starts_with("panic") {
                 "panic".to_string()
@@ -701,6 +731,75 @@ pub fn run_state(gcno: &[u8], gcdas: &[Vec<u8>]) -> String {
         Ok(Err(e)) => e,
         Err(_) => "panic".to_string(),
     }
+}
+
+/// the raw `{:?}` dump of the Gcno after all gcda and `stop` (None when reading fails)
+pub fn run_dump(gcno: &[u8], gcdas: &[Vec<u8>]) -> Option<String> {
+    let g = gcno.to_vec();
+    let ds = gcdas.to_vec();
+    guarded(move || -> Option<String> {
+        let mut gc = Gcno::new();
+        gc.read_gcno(GcovReaderBuf::<LittleEndian>::new("stem", g)).ok()?;
+        for d in ds {
+            gc.read_gcda(GcovReaderBuf::<LittleEndian>::new("stem", d)).ok()?;
+        }
+        gc.stop();
+        Some(format!("{:?}", gc))
+    })
+    .ok()
+    .flatten()
+}
+
+#[derive(Debug, Clone, Default)]
+pub struct BlockDump {
+    pub counter: u64,
+    pub inflow: u64,
+    pub outflow: u64,
+    pub lines: Vec<u32>,
+}
+
+#[derive(Debug, Clone, Default)]
+pub struct FnDump {
+    pub file: String,
+    pub blocks: Vec<BlockDump>,
+}
+
+/// per function: its file and, per block, counter / sum of incoming / sum of outgoing arc counts / lines
+pub fn dump_functions(dump: &str) -> Vec<FnDump> {
+    let sum = |s: &str| -> u64 {
+        s.split(", ")
+            .filter(|e| !e.trim().is_empty())
+            .filter_map(|e| e.trim().split_once(" (").and_then(|(_, c)| c.trim_end_matches(')').parse::<u64>().ok()))
+            .sum()
+    };
+    let mut out: Vec<FnDump> = Vec::new();
+    for line in dump.lines() {
+        if let Some(rest) = line.strip_prefix("===== ") {
+            let file = rest
+                .rsplit_once(" @ ")
+                .map(|(_, f)| f.rsplit_once(':').map(|(p, _)| p).unwrap_or(f).to_string())
+                .unwrap_or_default();
+            out.push(FnDump { file, blocks: vec![] });
+        } else if let Some(rest) = line.strip_prefix("Block : ") {
+            let c = rest.split(" Counter : ").nth(1).and_then(|x| x.trim().parse().ok()).unwrap_or(0);
+            if let Some(f) = out.last_mut() {
+                f.blocks.push(BlockDump { counter: c, ..Default::default() });
+            }
+        } else if let Some(rest) = line.strip_prefix("\tSource Edges : ") {
+            if let Some(b) = out.last_mut().and_then(|f| f.blocks.last_mut()) {
+                b.inflow = sum(rest);
+            }
+        } else if let Some(rest) = line.strip_prefix("\tDestination Edges : ") {
+            if let Some(b) = out.last_mut().and_then(|f| f.blocks.last_mut()) {
+                b.outflow = sum(rest);
+            }
+        } else if let Some(rest) = line.strip_prefix("\tLines : ") {
+            if let Some(b) = out.last_mut().and_then(|f| f.blocks.last_mut()) {
+                b.lines = rest.split(',').filter_map(|x| x.trim().parse().ok()).collect();
+            }
+        }
+    }
+    out
 }
 
 fn edge_list(s: &str) -> String {
